@@ -106,6 +106,64 @@ func unknownUnit(m map[string]any, et string) bool {
 	return m == nil && strings.Contains(et, "unknown work unit")
 }
 
+// rwTrace extracts the events RemoteUnitTrace.tla reads for the first remote unit of an S trace (consecutive identical
+// polls are collapsed), preceded by a "reset" line.
+func rwTrace(tracePath string) []map[string]any {
+	blank := func(ev string) map[string]any {
+		return map[string]any{"ev": ev, "start": false, "result": "", "state": 0, "for_release": false, "release": false, "force": false, "op": ""}
+	}
+	out := []map[string]any{blank("reset")}
+	uid := ""
+	for _, e := range traceEvents(tracePath) {
+		ev := e.Str("ev")
+		switch {
+		case ev == "env_kill" || ev == "env_restart":
+			out = append(out, blank(ev))
+		case strings.HasPrefix(ev, "rw_"):
+			if uid == "" {
+				uid = e.Str("id")
+			}
+			if e.Str("id") != uid || ev == "rw_out_req" || ev == "rw_out_copied" {
+				continue
+			}
+			r := blank(ev)
+			r["start"], r["result"], r["state"] = e.Bool("start"), e.Str("result"), e.Int("state")
+			r["for_release"], r["release"], r["force"], r["op"] = e.Bool("for_release"), e.Bool("release"), e.Bool("force"), e.Str("op")
+			if ev == "rw_poll" && len(out) > 0 {
+				p := out[len(out)-1]
+				if p["ev"] == "rw_poll" && p["result"] == r["result"] && p["state"] == r["state"] && p["for_release"] == r["for_release"] {
+					continue
+				}
+			}
+			out = append(out, r)
+		}
+	}
+
+	return out
+}
+
+// writeRWTraces concatenates the rw traces of the given schedule runs into one NDJSON file.
+func writeRWTraces(path string, runs []*schedResult) int {
+	f, err := os.Create(path)
+	if err != nil {
+		return 0
+	}
+	defer f.Close()
+	enc := json.NewEncoder(f)
+	n := 0
+	for _, r := range runs {
+		if r == nil || len(r.Inconc) > 0 {
+			continue
+		}
+		for _, e := range rwTrace(filepath.Join(r.SDir, "trace.ndjson")) {
+			_ = enc.Encode(e)
+			n++
+		}
+	}
+
+	return n
+}
+
 type schedResult struct {
 	Name   string   `json:"schedule"`
 	Steps  []string `json:"steps"`
